@@ -189,3 +189,30 @@ def check_C15(ctx):
                         "TLC, CommunityModules Json/IOUtils"]
     ctx.standard("MC_Fees", "fees", "Trace_Fees", n_random=20000 if ctx.thorough else 1500,
                  shards=16 if ctx.thorough else 8, corrupt=_corrupt_value, mc_kw={"workers": 4})
+
+
+# ------------------------------------------------------------------------------- C14
+
+def _corrupt_numeric(recs, rnd):
+    idx = [i for i, r in enumerate(recs) if r.get("ty") == "BigNum" and isinstance(r.get("r"), dict) and r["r"].get("ok") and r["r"].get("v_n")]
+    if not idx:
+        return False
+    v = recs[rnd.choice(idx)]["r"]["v_n"]
+    v[-1] = (v[-1] + 1) % 256
+    return True
+
+
+@prop("C14", "scenario = one public operation of BigNum / Int / BigInt / Value / MintBuilder with its operands; TLC operand "
+             "lattice (13 unsigned x 32 signed edge values, out-of-range and malformed strings, non-minimal CBOR) plus seeded "
+             "random operands (big integers up to 2000 bits, overlapping/disjoint/empty asset sets); non-trivial = the "
+             "validator compared an observed result with the exact mathematical one; distinct = (type, operation, expected "
+             "kind, ok/err) and operand-shape classes from OBL emits")
+def check_C14(ctx):
+    ctx.assumptions += ["division by zero (BigNum::div_floor, BigInt::div_*) is outside the statement and not exercised",
+                        "non-canonical decimal strings ('+5', '05', ' 1') are only required not to panic",
+                        "dev profile (overflow checks on), as the test suite"]
+    cfg = "MC_Numeric_thorough.cfg" if ctx.thorough else "MC_Numeric.cfg"
+    if not ctx.replay:
+        ctx.mc("MC_BigNat", workers=1)      # self-test of the base-256 arithmetic against TLC's native integers
+    ctx.standard("MC_Numeric", "numeric", "Trace_Numeric", n_random=40000 if ctx.thorough else 4000,
+                 shards=16 if ctx.thorough else 8, corrupt=_corrupt_numeric, mc_kw={"workers": 4, "cfg": cfg})
